@@ -66,6 +66,8 @@ fn main() {
         "C14" => props::c14::run(&args, &mut acc),
         "C16" => props::c16::run(&args, &mut acc),
         "C17" => props::c17::run(&args, &mut acc),
+        "C18" => props::c18::run(&args, &mut acc),
+        "C19" => props::c19::run(&args, &mut acc),
         "C20" => props::c20::run(&args, &mut acc),
         p => { eprintln!("unknown property {p}"); std::process::exit(2) }
     }
